@@ -150,9 +150,18 @@ Definition cgates_ok (cf : ccfg) (toks : list addr) (prev cur : cobs) (c : ccall
   | CAdvance _ => match co_log cur with [] => true | _ => false end   (* time alone changes nothing: see mods_after / bound_after *)
   end.
 
+(* the token a call names belongs to the observed token universe (otherwise nothing could be said
+   about its binding: such a trace is malformed) *)
+Definition cwf_call (toks : list addr) (c : ccall) : bool :=
+  match cc_op c with
+  | CBind t _ | CUnbind t _ | CTransferred _ _ _ t | CCreated _ _ t | CDestroyed _ _ t => mem t toks
+  | _ => true
+  end.
+
 Definition cmon_step (cf : ccfg) (toks : list addr) (prev : cobs) (it : citem) : bool :=
   let cur := ci_obs it in
-  cinv_ok cf cur
+  cwf_call toks (ci_call it)
+  && cinv_ok cf cur
   && (length (co_bound cur) =? length toks)%nat
   && match ci_out it with
      | Fail =>
